@@ -44,7 +44,7 @@ __CPROVER_ensures(__CPROVER_return_value >= 0)
 /* a new query is in progress; NULL (nothing left behind) when the timer manager or the c-ares channel cannot be made */
 #define Q_RESOLVE_ENSURES(rv) \
     (((rv) == NULL && xv_errno > 0 && xv_queries == __CPROVER_old(xv_queries)) || \
-     ((rv) != NULL && (rv)->state == query_state_in_progress && xv_queries == __CPROVER_old(xv_queries) + 1))
+     ((rv) != NULL && (rv)->state == query_state_in_progress && xv_queries == __CPROVER_old(xv_queries) + 1 && xv_errno == __CPROVER_old(xv_errno)))
 
 /* processing never leaves a terminal state (a finished query stays finished) */
 #define Q_PROCESS_ENSURES(q) \
@@ -60,27 +60,28 @@ __CPROVER_ensures(__CPROVER_return_value >= 0)
     (q)->state == __CPROVER_old((q)->state))
 
 struct xcm_dns_query *xcm_dns_resolve(const char *domain_name, struct xpoll *xpoll, double timeout, void *log_ref)
-__CPROVER_requires(xpoll != NULL && domain_name != NULL && Q_GHOST_OK)
-__CPROVER_assigns(xv_errno, xv_queries, xv_regs, xv_timers, xv_tmgrs)
+__CPROVER_requires(xpoll != NULL && domain_name != NULL)
+__CPROVER_assigns(xv_errno, xv_queries)
 __CPROVER_ensures(__CPROVER_return_value == NULL || __CPROVER_is_fresh(__CPROVER_return_value, sizeof(struct xcm_dns_query)))
 __CPROVER_ensures(Q_RESOLVE_ENSURES(__CPROVER_return_value))
+__CPROVER_ensures(__CPROVER_return_value != NULL ==> Q_OK(__CPROVER_return_value))
 ;
 void xcm_dns_query_process(struct xcm_dns_query *query)
-__CPROVER_requires(query != NULL && Q_OK(query) && Q_GHOST_OK)
-__CPROVER_assigns(__CPROVER_object_whole(query), xv_regs, xv_timers)
+__CPROVER_requires(query != NULL && Q_OK(query))
+__CPROVER_assigns(__CPROVER_object_whole(query))
 __CPROVER_ensures(Q_OK(query) && Q_PROCESS_ENSURES(query))
 ;
 int xcm_dns_query_result(struct xcm_dns_query *query, struct xcm_addr_ip *ips, int capacity)
-__CPROVER_requires(query != NULL && Q_OK(query) && Q_GHOST_OK && capacity >= 1 && capacity <= XCM_DNS_MAX_RESULT_SIZE)
+__CPROVER_requires(query != NULL && Q_OK(query) && capacity >= 1 && capacity <= XCM_DNS_MAX_RESULT_SIZE)
 __CPROVER_requires(__CPROVER_w_ok(ips, sizeof(struct xcm_addr_ip) * capacity))
-__CPROVER_assigns(xv_errno, xv_q_failed_seen, xv_regs, __CPROVER_object_upto(ips, sizeof(struct xcm_addr_ip) * capacity))
+__CPROVER_assigns(xv_errno, xv_q_failed_seen, __CPROVER_object_upto(query->channel_fd_reg_ids, sizeof(query->channel_fd_reg_ids)))
+__CPROVER_assigns(__CPROVER_object_upto(ips, sizeof(struct xcm_addr_ip) * capacity))
 __CPROVER_ensures(Q_RESULT_ENSURES(__CPROVER_return_value, query, capacity))
 ;
 /* errno preserved: see job dnstc.dns_query_destroy */
 void xcm_dns_query_destroy(struct xcm_dns_query *query, bool owner)
-__CPROVER_requires(query == NULL || (Q_OK(query) && xv_queries > 0))
-__CPROVER_requires(Q_GHOST_OK)
-__CPROVER_assigns(xv_queries, xv_regs, xv_timers, xv_tmgrs)
+__CPROVER_requires(query == NULL || Q_OK(query))
+__CPROVER_assigns(xv_queries)
 __CPROVER_ensures(xv_queries == __CPROVER_old(xv_queries) - (query != NULL ? 1 : 0))
 ;
 
@@ -88,8 +89,8 @@ __CPROVER_ensures(xv_queries == __CPROVER_old(xv_queries) - (query != NULL ? 1 :
 #define HOST_IS_NAME(h) ((h)->type != xcm_addr_type_ip)
 int xcm_dns_resolve_sync(struct xcm_addr_host *host, void *log_ref)
 __CPROVER_requires(__CPROVER_is_fresh(host, sizeof(*host)))
-__CPROVER_requires(XV_DT_CNT_OK(xv_xpolls) && Q_GHOST_OK && !xv_q_failed_seen && !xv_polled_after_fail && !xv_polled)
-__CPROVER_assigns(XV_POLL_ASSIGNS, xv_xpolls, xv_queries, xv_regs, xv_timers, xv_tmgrs, xv_q_failed_seen, host->type, __CPROVER_object_upto(&host->ip, sizeof(struct xcm_addr_ip)))
+__CPROVER_requires(XV_DT_CNT_OK(xv_xpolls) && XV_DT_CNT_OK(xv_queries) && !xv_q_failed_seen && !xv_polled_after_fail && !xv_polled)
+__CPROVER_assigns(XV_POLL_ASSIGNS, xv_xpolls, xv_queries, xv_q_failed_seen, host->type, __CPROVER_object_upto(&host->ip, sizeof(struct xcm_addr_ip)))
 __CPROVER_ensures(__CPROVER_return_value == 0 || __CPROVER_return_value == -1)
 /* PO[C13] resolve_sync.ip_needs_no_resolution: a literal address is left alone: no xpoll, no query, no poll() */
 __CPROVER_ensures(__CPROVER_old(host->type) == xcm_addr_type_ip ==> (__CPROVER_return_value == 0 && !xv_polled && xv_errno == __CPROVER_old(xv_errno)))
